@@ -208,10 +208,14 @@ class GenericCallAdapter(Adapter):
         old_node_kwargs = {kw.arg: kw.value for kw in old_node.keywords}
         # the insert positions are positions in the old call,
         # which contains also the keyword arguments which are deleted
-        old_kwarg_pos = {kw.arg: pos for pos, kw in enumerate(old_node.keywords)}
+        # CallArg.arg_pos counts the positional arguments of the old call too
+        old_kwarg_pos = {
+            kw.arg: len(old_node.args) + pos
+            for pos, kw in enumerate(old_node.keywords)
+        }
 
         to_insert = []
-        insert_pos = 0
+        insert_pos = len(old_node.args)
         for key, new_value_element in new_kwargs.items():
             if new_value_element.is_default:
                 continue
